@@ -46,7 +46,10 @@ MANIFEST = dict(
          "(lower end: c = -1, L <= 0, H >= N-2; upper end: c = 0, L <= 1, H >= N-1); (9) the dispatch of integrate is evaluated for each documented "
          "kind of second argument (plain function, bound method, array / list / tuple) with every type test read as a predicate on the kind; rules "
          "the object files for later calls (self.D[k] = rule) are filed under their own count (key and count brought to a normal form over the "
-         "parameters and the attribute values on entry).",
+         "parameters and the attribute values on entry); (10) the weights are summed by a total sum of (integrand value * weights): in the "
+         "returned term no shape-dependent contraction (dot / inner / matmul / vdot / einsum / tensordot) joins the weights to a value whose shape is "
+         "that of whatever the caller's integrand returns (a scalar for the constant integrand); (11) origin analysis over reaching definitions "
+         "and helper summaries: no object gauleg returns is a module-level / memoised (functools.lru_cache) object handed out without a copy.",
     note="Not decided: Newton convergence for all n, exactness to degree 2n-1, agreement with an independent rule (numerical facts). "
          "Trusted: clang AST, numpy broadcasting/meshgrid semantics as modelled, sympy normaliser.",
     technique="static analysis: reaching definitions on a C CFG (zero-trip path rule), cross-copy sibling comparison, per-statement formula conformance, typestate/memo-key discipline, symbolic shape inference",
@@ -57,7 +60,7 @@ IU = "esutil.integrate.util."
 
 # rules that keep their verdict however the code is laid out (decided by term equality, effect analysis or dominance over
 # resolved calls); every other rule of this check is a template rule (vcheck.core.Check.obt)
-SEMANTIC = ('R17.1', 'R17.2', 'R17.3', 'R17.5', 'R17.5r', 'R17.6::returns::', 'R17.7', 'R17.8')
+SEMANTIC = ('R17.1', 'R17.2', 'R17.3', 'R17.4::gauleg::hands-out', 'R17.5', 'R17.5r', 'R17.6::returns::', 'R17.7', 'R17.8')
 
 
 def run(chk):
@@ -1948,6 +1951,208 @@ def wrapper(chk, repo, cg):
             if not (len(comps) == 2 and all(c is not None and dotted_name(c.func) == "_cgauleg.cgauleg" for c, _ in comps) and [k for _, k in comps] == [0, 1]):
                 okr = False
     chk.ob("R17.4", "gauleg::returns-x-w", okr, fi.where(), "the (abscissae, weights) pair is returned as produced")
+    fresh_arrays(chk, repo, fi)
+
+
+# ---------------------------------------------------------------------------
+# R17.4 fresh arrays: what gauleg hands out belongs to the caller
+# ---------------------------------------------------------------------------
+# gauleg is a public function: what a caller does with the arrays it gets (w *= f(x), an in-place change of variable) must not change
+# what any later call returns -- "abscissae and weights agree with the Gauss-Legendre rule" is stated for every call, whatever calls
+# came before.  So no array gauleg returns may be reachable from state that outlives the call: not handed out of a memoised function
+# or a module-level container without a copy, and not filed there either.
+_MEMOISERS = ("functools.lru_cache", "functools.cache")
+_MAY_ALIAS = {"asarray", "asanyarray", "ascontiguousarray", "asfortranarray", "atleast_1d", "ravel", "squeeze", "reshape", "require", "transpose"}
+_CONTAINER_READS = {"get", "setdefault", "values", "items", "__getitem__"}
+_NEW, _KEPT, _DONTKNOW, _PARAM = "new", "kept", "?", "param"
+
+
+class _Origins:
+    """For one module-level function: where the objects an expression may denote were made, over reaching definitions.  Origins:
+    (_NEW, id of the expression that makes a new object on every evaluation, text) / (_KEPT, text): an object that outlives the call
+    (module-level name or container, attribute of a module-level object, mutable default, result of a memoised function) /
+    (_PARAM, name): whatever the caller passed / (_DONTKNOW, text).  Containers are not told from their items (an item of a kept
+    tuple is kept, an item of a new tuple of arrays made by the extension is new)."""
+
+    _summaries = {}
+
+    def __init__(self, repo, fi):
+        self.repo, self.fi = repo, fi
+        self.cfg = cfg_of(fi)
+        self.view = self.cfg.view()
+        self.IN, _ = self.view.reaching_defs()
+        self.params = [p.lstrip("*") for p in fi.params]
+        self.globals = {n for x in walk_no_nested(fi.node) if isinstance(x, (ast.Global, ast.Nonlocal)) for n in x.names}
+        self.local = {x.id for x in walk_no_nested(fi.node) if isinstance(x, ast.Name) and isinstance(x.ctx, (ast.Store, ast.Del))} - self.globals
+
+    # -- objects that outlive the call -------------------------------------------
+    def persistent(self, e):
+        """text when the expression denotes an object that is there before the call and stays after it"""
+        mod = self.fi.module
+        if isinstance(e, ast.Name):
+            if e.id in self.globals:
+                return "the global `%s`" % e.id
+            if e.id in self.params:
+                d = self.fi.defaults.get(e.id)
+                if isinstance(d, (ast.Dict, ast.List, ast.Set)) or (isinstance(d, ast.Call) and call_name(d) in ("dict", "list", "set", "OrderedDict", "defaultdict")):
+                    return "the default value of parameter `%s` (one object for all calls)" % e.id
+                return None
+            if e.id in self.local:
+                return None
+            if e.id in mod.consts or e.id in mod.funcs or e.id in mod.classes:
+                return "the module-level `%s`" % e.id
+            return None
+        if isinstance(e, (ast.Attribute, ast.Subscript)):
+            if isinstance(e, ast.Attribute) and dotted_name(e) and self.repo.resolve_name(mod, dotted_name(e)) != dotted_name(e) and isinstance(e.value, ast.Name) and e.value.id in mod.imports:
+                return None                      # a name of an imported module
+            b = self.persistent(e.value)
+            return ("%s of %s" % ("an attribute" if isinstance(e, ast.Attribute) else "an item", b)) if b else None
+        return None
+
+    # -- origins -------------------------------------------------------------------
+    def of(self, e, node, depth=0, seen=frozenset()):
+        if depth > 14 or e is None:
+            return {(_DONTKNOW, "not followed")}
+        if isinstance(e, ast.Constant) or isinstance(e, (ast.BinOp, ast.UnaryOp, ast.Compare, ast.JoinedStr)):
+            return {(_NEW, id(e), norm(e)[:60])}
+        if isinstance(e, ast.IfExp):
+            return self.of(e.body, node, depth + 1, seen) | self.of(e.orelse, node, depth + 1, seen)
+        if isinstance(e, ast.BoolOp):
+            return set().union(*[self.of(v, node, depth + 1, seen) for v in e.values])
+        if isinstance(e, (ast.Tuple, ast.List)):
+            return set().union(*[self.of(v, node, depth + 1, seen) for v in e.elts]) if e.elts else {(_NEW, id(e), norm(e))}
+        if isinstance(e, ast.Starred):
+            return self.of(e.value, node, depth + 1, seen)
+        p = self.persistent(e)
+        if p and not (isinstance(e, ast.Name) and e.id in self.globals and self.IN.get(node.id, {}).get(e.id)):
+            return {(_KEPT, p)}
+        if isinstance(e, ast.Name):
+            defs = self.IN.get(node.id, {}).get(e.id)
+            if not defs:
+                return {(_DONTKNOW, "`%s`" % e.id)}
+            out = set()
+            for d in sorted(defs):
+                if d == self.cfg.entry.id:
+                    out.add((_PARAM, e.id) if e.id in self.params else (_DONTKNOW, "`%s`" % e.id))
+                    continue
+                if (d, e.id) in seen:
+                    continue
+                dn = self.cfg.node(d)
+                a = dn.ast
+                val = None
+                if dn.kind == "stmt" and isinstance(a, ast.Assign):
+                    for t in a.targets:
+                        if any(isinstance(x, ast.Name) and x.id == e.id for x in ast.walk(t) if isinstance(getattr(x, "ctx", None), ast.Store)):
+                            val = a.value
+                            if isinstance(t, (ast.Tuple, ast.List)) and isinstance(val, (ast.Tuple, ast.List)) and len(t.elts) == len(val.elts) \
+                                    and not any(isinstance(x, ast.Starred) for x in t.elts + val.elts):
+                                val = next((v for x, v in zip(t.elts, val.elts) if isinstance(x, ast.Name) and x.id == e.id), val)
+                elif dn.kind == "stmt" and isinstance(a, ast.AnnAssign) and a.value is not None:
+                    val = a.value
+                if val is None:
+                    out.add((_DONTKNOW, "`%s` bound by `%s`" % (e.id, norm(a)[:50] if isinstance(a, ast.AST) else dn.kind)))
+                else:
+                    out |= self.of(val, dn, depth + 1, seen | {(d, e.id)})
+            return out
+        if isinstance(e, ast.Subscript):
+            return self.of(e.value, node, depth + 1, seen)          # an item / a view of it
+        if isinstance(e, ast.Attribute):
+            if e.attr in ("T", "real", "imag", "flat", "base"):
+                return self.of(e.value, node, depth + 1, seen)
+            return {(_DONTKNOW, norm(e)[:60])}
+        if isinstance(e, ast.Call):
+            return self.of_call(e, node, depth, seen)
+        return {(_DONTKNOW, norm(e)[:60])}
+
+    def of_call(self, c, node, depth, seen):
+        f = c.func
+        d = dotted_name(f)
+        mod = self.fi.module
+        full = (self.repo.resolve_name(mod, d) if d else "") or ""
+        new = {(_NEW, id(c), norm(c)[:60])}
+        if d == "_cgauleg.cgauleg" or full.endswith("._cgauleg.cgauleg"):
+            return new                                                 # the extension allocates both arrays in every call
+        if isinstance(f, ast.Attribute) and not full.startswith(("numpy.", "copy.")):
+            recv = self.persistent(f.value)
+            if recv and f.attr in _CONTAINER_READS:
+                return {(_KEPT, "%s (read by .%s)" % (recv, f.attr))}
+            if f.attr == "copy" and not c.args and not c.keywords:
+                return new
+            if f.attr == "astype" and not any(k.arg == "copy" for k in c.keywords):
+                return new
+            if f.attr in _MAY_ALIAS or f.attr == "view":
+                return self.of(f.value, node, depth + 1, seen)
+        if full.startswith("numpy."):
+            nm = full.rsplit(".", 1)[-1]
+            cp = kwarg(c, "copy")
+            if nm in ("array", "copy") and c.args and (cp is None or const_value(cp) is True):
+                return new
+            if nm in _MAY_ALIAS | {"array"} and c.args:
+                return self.of(c.args[0], node, depth + 1, seen)
+            return {(_DONTKNOW, norm(c)[:60])}
+        if full == "copy.deepcopy" and len(c.args) == 1:
+            return new
+        if isinstance(f, ast.Name) and f.id in ("tuple", "list") and f.id not in self.local and len(c.args) == 1:
+            return self.of(c.args[0], node, depth + 1, seen)
+        callee = self.repo.funcs.get(full)
+        if callee is not None and callee.cls is None and callee is not self.fi:
+            memo = other = None
+            for dec in callee.node.decorator_list:
+                dd = dotted_name(dec.func if isinstance(dec, ast.Call) else dec)
+                q = self.repo.resolve_name(callee.module, dd) if dd else None
+                if q in _MEMOISERS:
+                    memo = q
+                else:
+                    other = norm(dec)
+            if memo:
+                return {(_KEPT, "the result of `%s`, which %s memoises: every call with equal arguments gets the same object" % (callee.name, memo))}
+            if other:
+                return {(_DONTKNOW, "`%s` is wrapped by %s" % (callee.name, other[:40]))}
+            summ = _Origins.summary(self.repo, callee)
+            b = _bind_call(callee, c)
+            out = set()
+            for o in summ:
+                if o[0] == _PARAM:
+                    arg = b.get(o[1], callee.defaults.get(o[1])) if b is not None else None
+                    out |= self.of(arg, node, depth + 1, seen) if arg is not None else {(_DONTKNOW, "argument `%s` of %s" % (o[1], callee.name))}
+                elif o[0] == _NEW:
+                    out.add((_NEW, (id(c), o[1]), o[2]))             # made anew in each call of the helper
+                else:
+                    out.add(o)
+            return out
+        return {(_DONTKNOW, norm(c)[:60])}
+
+    def returned(self):
+        """origins of everything the function returns.  (That a returned array is also filed in a persistent object matters only
+        when a later call hands that object out again -- and that later return then has a kept origin itself.)"""
+        out = set()
+        for r in rules.return_nodes(self.cfg):
+            out |= self.of(r.ast.value, r) if r.ast.value is not None else {(_NEW, id(r.ast), "None")}
+        return out
+
+    @classmethod
+    def summary(cls, repo, f):
+        if f.qualname in cls._summaries:
+            return cls._summaries[f.qualname]
+        cls._summaries[f.qualname] = {(_DONTKNOW, "recursion through %s" % f.name)}
+        try:
+            out = _Origins(repo, f).returned()
+        except Exception as e:                      # a construct the graph builder does not model: no summary, no verdict
+            out = {(_DONTKNOW, "%s not analysed (%s)" % (f.name, type(e).__name__))}
+        cls._summaries[f.qualname] = out
+        return out
+
+
+def fresh_arrays(chk, repo, fi):
+    _Origins._summaries = {}
+    got = _Origins(repo, fi).returned()
+    kept = sorted(o[1] for o in got if o[0] == _KEPT)
+    unsure = sorted(str(o[1]) for o in got if o[0] in (_DONTKNOW, _PARAM))
+    ok = False if kept else (None if unsure or not got else True)
+    chk.ob("R17.4", "gauleg::hands-out-arrays-of-its-own", ok, fi.where(),
+           "no array gauleg returns stays reachable from state that outlives the call (a later call must return the Gauss-Legendre rule whatever an earlier "
+           "caller did to the arrays it was given): %s" % ("it returns %s" % kept[0] if kept else "origin not established for %s" % ", ".join(unsure[:3]) if ok is None else
+                                                          "every returned object is made in the call (%s)" % ", ".join(sorted({o[2] for o in got if o[0] == _NEW})[:3])))
 
 
 def cached_tables_readonly(chk, repo):
@@ -3216,13 +3421,67 @@ class _GuardEnv(symx.Env):
             k = _machine_constant(self.se.repo, self.mod, e)
             if k is not None:
                 return k
+        if isinstance(e, ast.Call):
+            t = self._contraction(e)
+            if t is not None:
+                return t
         return super().ev(e, stmt_level)
+
+    def _contraction(self, c):
+        """the term of an array contraction the evaluator has no term for (`a.dot(b)`, numpy.vdot / matmul / tensordot / einsum):
+        an uninterpreted application named after the operation, so that the rule about how the weights are summed can see it"""
+        f = c.func
+        d = dotted_name(f)
+        full = (self.se.repo.resolve_name(self.mod, d) if d else "") or ""
+        ops = None
+        if full.startswith("numpy.") and full.rsplit(".", 1)[-1] in ("vdot", "matmul", "tensordot") and len(c.args) >= 2:
+            name, ops = full.rsplit(".", 1)[-1].upper(), c.args[:2]
+        elif full == "numpy.einsum" and len(c.args) >= 3 and isinstance(const_value(c.args[0]), str):
+            name, ops = "EINSUM", c.args[1:]
+        elif isinstance(f, ast.Attribute) and f.attr == "dot" and len(c.args) == 1 and not c.keywords and not full.startswith(("numpy.", "scipy.")):
+            name, ops = "DOT", [f.value, c.args[0]]
+        if ops is None:
+            return None
+        vals = [self.ev(a) for a in ops]
+        if not all(symx._is_expr(v) for v in vals):
+            return None
+        return sp.Function(name)(*[symx._as_expr(v) for v in vals])
+
+
+_SHAPE_MAKERS = {"ones_like", "zeros_like", "empty_like", "full_like", "ones", "zeros", "empty", "full", "broadcast_to", "broadcast_arrays", "atleast_1d",
+                 "resize", "tile", "repeat", "linspace", "arange"}
+
+
+class _ShapeEnv(_GuardEnv):
+    """for the rule about how the weights are summed: the environment keeps what fixes the SHAPE of a value where the plain term
+    forgets it -- an array made by a numpy constructor is an application SHAPED_<constructor>(..) (not the number 1 or 0), and
+    arithmetic whose term no longer mentions an operand's symbols (0 * x, x - x) is wrapped as SHAPED_AS(term, lost symbols):
+    broadcasting against such a value gives a result of that shape whatever the other operand is"""
+
+    def ev(self, e, stmt_level=False):
+        if isinstance(e, ast.Call):
+            d = dotted_name(e.func)
+            full = (self.se.repo.resolve_name(self.mod, d) if d else "") or ""
+            if full.startswith("numpy.") and full.rsplit(".", 1)[-1] in _SHAPE_MAKERS and e.args:
+                vals = [self.ev(x) for x in e.args]
+                return sp.Function("SHAPED_" + full.rsplit(".", 1)[-1])(*[symx._as_expr(v) for v in vals if symx._is_expr(v)])
+        return super().ev(e, stmt_level)
+
+    def binop(self, op, a, b, node):
+        r = super().binop(op, a, b, node)
+        if isinstance(r, sp.Basic) and symx._is_expr(a) and symx._is_expr(b):
+            lost = (symx._as_expr(a).free_symbols | symx._as_expr(b).free_symbols) - r.free_symbols
+            if lost:
+                return sp.Function("SHAPED_AS")(r, *sorted(lost, key=str))
+        return r
 
 
 class _GuardEval(symx.SymEval):
+    env_cls = _GuardEnv
+
     def run(self, fi, args, flags=None, depth=0, pins=None):
         flags = dict(flags or {})
-        env = _GuardEnv(self, fi, fi.module, dict(args), flags, depth=depth)
+        env = self.env_cls(self, fi, fi.module, dict(args), flags, depth=depth)
         env.pins = dict(pins or {})
         for p in fi.params:
             pn = p.lstrip("*")
@@ -3355,7 +3614,60 @@ def _guarded_returns(r, data_terms=()):
     return True, "every alternative return agrees with the general one under its condition (%d alternatives)" % (len(f.args) - 1)
 
 
-def _returns_agree(chk, repo, fi, name, opaque, assume, env, data_terms=()):
+# array contractions whose result depends on the shapes of BOTH operands: they sum over the weights only when the other operand
+# has one entry per weight (dot / inner of a scalar and an array is the scaled array, nothing is summed; matmul / vdot / einsum /
+# tensordot of a scalar and an array raise)
+_CONTRACTIONS = {"DOT": "dot", "INNER": "inner", "MATMUL": "matmul (@)", "VDOT": "vdot", "TENSORDOT": "tensordot", "EINSUM": "einsum"}
+
+
+class _ShapeEval(_GuardEval):
+    env_cls = _ShapeEnv
+
+
+def _has_integrands_shape(o, integrand, tables):
+    """is the shape of the operand `o` the shape of whatever the caller's integrand returns: it contains a value of the integrand
+    and, outside the integrand's arguments, none of the object's tables (arithmetic with a table broadcasts to the table's shape)"""
+    apps = [t for t in o.atoms(sp.core.function.AppliedUndef) if t.func.__name__ == integrand]
+    if not apps:
+        return False
+    blind = o.xreplace({t: sp.Symbol("Y__%d" % k) for k, t in enumerate(sorted(apps, key=str))})
+    if any(t.func.__name__.startswith("SHAPED_") and t.func.__name__ != "SHAPED_AS" for t in blind.atoms(sp.core.function.AppliedUndef)):
+        return False
+    return not (blind.free_symbols & set(tables))
+
+
+def _weights_summed_whatever_the_shape(r, integrand, tables):
+    """`r`: the term an integrator returns; integrand: name of the caller-supplied callable; tables: symbols of the node / weight
+    tables of the object.  The constant integrand (a polynomial of degree 0) need not return an array: the rule's weighted sum is
+    sum_i w_i c, which `(f(x) * w).sum()` gives for every shape f(x) broadcasts from.  A contraction of f(x) itself with the weights
+    sums over the weights only when f(x) has their shape.  -> (True / False, text)"""
+    bad = []
+
+    def walk(t, summed):
+        if isinstance(t, sp.core.function.AppliedUndef):
+            nm = t.func.__name__
+            if nm == integrand:
+                return
+            if nm in _CONTRACTIONS and len(t.args) >= 2 and (not summed or nm not in ("DOT", "INNER")):
+                own = [o for o in t.args if _has_integrands_shape(o, integrand, tables)]
+                rest = [o for o in t.args if not any(o is x for x in own)]
+                if own and any(o.free_symbols & set(tables) for o in rest):
+                    bad.append((nm, own[0], t))
+            for x in t.args:
+                walk(x, summed or nm == "SUM")
+            return
+        for x in getattr(t, "args", ()):
+            walk(x, summed)
+    walk(r, False)
+    if bad:
+        nm, own, t = bad[0]
+        return False, "the weights are combined with the integrand's value by %s (%s), whose result depends on the shape of %s: for an integrand that returns a scalar " \
+                      "(a constant, the polynomial of degree 0) it does not sum over the weights (dot / inner give the weights scaled by the constant, the others raise); " \
+                      "the rule's weighted sum is the total sum of value * weights, which broadcasts" % (_CONTRACTIONS[nm], t, own)
+    return True, "no shape-dependent contraction of the integrand's value with the weights"
+
+
+def _returns_agree(chk, repo, fi, name, opaque, assume, env, data_terms=(), integrand=None, tables=()):
     se = _GuardEval(repo, opaque=opaque, opaque_tests=None)
     se.assume = dict(assume)
     r = _sym_run(se, fi, env)
@@ -3365,6 +3677,22 @@ def _returns_agree(chk, repo, fi, name, opaque, assume, env, data_terms=()):
         ok, txt = _guarded_returns(r, data_terms)
     chk.ob("R17.6", "returns::%s::no-special-case-replaces-the-sum" % name, ok, fi.where(),
            "every path that returns hands back the weighted sum (a test on the inputs does not replace it by another value): %s" % txt)
+    if integrand is not None:
+        if isinstance(r, sp.Basic):
+            ok, txt = _weights_summed_whatever_the_shape(r, integrand, tables)
+            if ok is False:
+                # confirmed on the term that keeps what fixes the shape of a value (array constructors, arithmetic that cancels)
+                se2 = _ShapeEval(repo, opaque=opaque, opaque_tests=None)
+                se2.assume = dict(assume)
+                r2 = _sym_run(se2, fi, env)
+                if isinstance(r2, sp.Basic):
+                    ok, txt = _weights_summed_whatever_the_shape(r2, integrand, tables)
+                else:
+                    ok, txt = None, "the shapes of the operands of the contraction in %s were not inferred" % r
+        else:
+            ok, txt = None, "the returned value was not inferred (%s)" % (r.why if isinstance(r, _NoTerm) else repr(r)[:80])
+        chk.ob("R17.6", "returns::%s::weights-summed-whatever-the-integrand-returns" % name, ok, fi.where(),
+               "the weighted sum is a total sum of (integrand value * weights), for every shape the value of the caller's integrand has: %s" % txt)
 
 
 def integrators(chk, repo, tensor=(None, "")):
@@ -3379,7 +3707,8 @@ def integrators(chk, repo, tensor=(None, "")):
     ref = f1 * SUM(sp.Function("func")(xxi * f1 + f2) * wii)
     eq = isinstance(r, sp.Basic) and symx.equal(r, ref)[0]
     chk.ob("R17.6", "integrate_func::formula", None if isinstance(r, _NoTerm) else bool(eq), fi.where(), "result is (b-a)/2 * sum(w_i f((b-a)/2 x_i + (a+b)/2)) (found %s)" % r)
-    _returns_agree(chk, repo, fi, "QGauss.integrate_func", (), se.assume, {"self": symx.Opaque("self"), "xvals": [a, b], "func": func, "self.xxi": xxi, "self.wii": wii, "self.npts": sp.Symbol("n")})
+    _returns_agree(chk, repo, fi, "QGauss.integrate_func", (), se.assume, {"self": symx.Opaque("self"), "xvals": [a, b], "func": func, "self.xxi": xxi, "self.wii": wii, "self.npts": sp.Symbol("n")},
+                   integrand="func", tables=(xxi, wii))
     fi = repo.func(IU + "QGauss.integrate_data")
     chk.analysed_unit(fi.qualname)
     xs, ys = symx.symbols("xs", "ys")
@@ -3403,7 +3732,8 @@ def integrators(chk, repo, tensor=(None, "")):
     ref = xf1 * yf1 * SUM(sp.Function("func")(xg * xf1 + xf2, yg * yf1 + yf2) * wg)
     eq = isinstance(r, sp.Basic) and symx.equal(r, ref)[0]
     _returns_agree(chk, repo, fi, "QGauss2.integrate_func", (), se.assume,
-                   {"self": symx.Opaque("self"), "xrng": [a, b], "yrng": [c, d], "func": func, "self.xgrid": xg, "self.ygrid": yg, "self.wgrid": wg})
+                   {"self": symx.Opaque("self"), "xrng": [a, b], "yrng": [c, d], "func": func, "self.xgrid": xg, "self.ygrid": yg, "self.wgrid": wg},
+                   integrand="func", tables=(xg, yg, wg))
     if not eq and tensor[0]:
         # the same statement decided on elements (R17.7 tensor-product-sum): the grids need not be kept as attributes for it
         chk.ob("R17.6", "QGauss2.integrate_func::formula", True, fi.where(), "tensor-product sum with both affine maps and the product prefactor, established element by element: %s" % tensor[1])
